@@ -47,6 +47,7 @@ Inductive val :=
 | VRef (a : nat)
 | VVec (l : list Q) | VIVec (l : list Z) | VMat (c : nat) (m : list (list Q)) | VBMat (c : nat) (m : list (list bool))
 | VFun (f : string) | VClos (f : string)
+| VSqrt (z : Z)                  (* np.sqrt of the integer z >= 0, kept exact: only int() is defined on it *)
 | VUnbound.
 Definition VNat (n : nat) : val := VInt (Z.of_nat n).
 
@@ -305,6 +306,23 @@ Definition prim (f : string) (h : heap) (args : list val) (kws : list (string * 
   else if f =? "zip" then
     match args, kws with
     | [a; b], [] => x <~ iter_elems h a ;; y <~ iter_elems h b ;; OK (h, VTup (zip2 (snd x) (snd y)))
+    | _, _ => UNM end
+  else if f =? "len" then
+    match args, kws with
+    | [VTup l], [] => OK (h, VInt (Z.of_nat (List.length l)))
+    | [VFDict d], [] => OK (h, VInt (Z.of_nat (List.length d)))
+    | [VVec l], [] => OK (h, VInt (Z.of_nat (List.length l)))
+    | [VIVec l], [] => OK (h, VInt (Z.of_nat (List.length l)))
+    | [VRef a], [] => match hget h a with Some o => OK (h, VInt (Z.of_nat (List.length (obj_elems o)))) | None => UNM end
+    | _, _ => UNM end
+  else if f =? "np.sqrt" then
+    match args, kws with [VInt z], [] => if (0 <=? z)%Z then OK (h, VSqrt z) else UNM | _, _ => UNM end
+  else if f =? "int" then                              (* int() truncates; floor(sqrt z) = Z.sqrt z for an integer z >= 0 *)
+    match args, kws with [VInt z], [] => OK (h, VInt z) | [VSqrt z], [] => OK (h, VInt (Z.sqrt z)) | _, _ => UNM end
+  else if f =? "range" then                            (* an immutable sequence of ints *)
+    match args, kws with
+    | [VInt b], [] => OK (h, VTup (map (fun i => VInt (Z.of_nat i)) (seq 0 (Z.to_nat b))))
+    | [VInt a; VInt b], [] => OK (h, VTup (map (fun i => VInt (a + Z.of_nat i)%Z) (seq 0 (Z.to_nat (b - a)))))
     | _, _ => UNM end
   else if f =? "dict" then
     match args, kws with
